@@ -27,6 +27,7 @@ def kindOfCode (code : String) : String :=
   | "600160005560006000FD" => "storeRevert"
   | "6001600055FE" => "storeInvalid"
   | "33FF" => "suicide"
+  | "600035FF" => "suicideTo"
   | "60006000A000" => "log"
   | "60006000A060006000FD" => "logRevert"
   | "6000600060006000346000355AF100" => "forward"
@@ -58,6 +59,14 @@ def runKind (bond : Denom) (kind : String) (l : Ledger) (s : State) (caller call
     -- the whole balance of the contract goes to the caller; the contract disappears
     let b := l.balOf callee bond
     .ok (l.move callee caller [(bond, b)], remove s callee)
+  | "suicideTo" =>
+    -- SELFDESTRUCT(calldata[0:32]): the whole balance goes to the named account (created if need be) and the contract
+    -- disappears; a contract that names itself keeps its balance and stays (there is nobody to receive it, and the
+    -- chain cannot burn coins from inside the VM)
+    if target == callee then .ok (l, s)
+    else
+      let b := l.balOf callee bond
+      .ok (l.move callee target [(bond, b)], remove s callee)
   | "forward" =>
     match depth with
     | 0 => err "cvm:depth"
